@@ -148,6 +148,26 @@ pub fn run(e: &Engine) {
         |c| c.to_json(),
         check,
     );
+    // larger maps (hundreds to thousands of keys, wide nodes) and values above 2^63
+    let bigs: Vec<u64> = (0..e.tier.pick(12u64, 100)).collect();
+    let seed = e.seed;
+    e.run_list("larger-monotone-maps", &bigs, |i| json!({"big_case": i}), |i, rec| {
+        let n = 200 + (crate::engine::mix(seed, *i) % 4000);
+        let keys: Vec<Vec<u8>> = if i % 2 == 0 {
+            gen::Recipe { kind: 1, n, seed: crate::engine::mix(seed, 77 + *i), fanout: 3 + (*i % 40) as u8, keylen: 8, values: 0 }.pairs().into_iter().map(|p| p.0).collect()
+        } else {
+            let mut ks: Vec<Vec<u8>> = (0..n).map(|j| { let h = crate::engine::mix(seed ^ *i, j); vec![(h >> 8) as u8, (h >> 16) as u8, (h >> 24) as u8 % 7] }).collect();
+            ks.sort();
+            ks.dedup();
+            ks
+        };
+        let start = if i % 3 == 0 { 0 } else if i % 3 == 1 { 1u64 << 63 } else { 9 };
+        let gaps: Vec<u64> = if i % 4 == 0 { vec![1] } else { vec![1, 255, 256, 1 << 20, 3, 1 << 40] };
+        let pairs = monotone(keys.into_iter().map(|k| (k, 0)).collect(), start, &gaps);
+        let c = Case { input: FstInput::new(gen::Front::MapBuilder, None, pairs), extra: vec![] };
+        rec.class("larger_map");
+        check(&c, rec)
+    });
     for cls in ["empty_key_value_0", "empty_key_value_nonzero", "first_value_above_0"] {
         e.require_class(cls, 1);
     }
@@ -155,5 +175,8 @@ pub fn run(e: &Engine) {
 
 pub fn replay(_sub: &str, case: &Value) -> Option<CheckResult> {
     let mut rec = Rec::new(0);
+    if case.get("big_case").is_some() {
+        return None;
+    }
     Some(crate::engine::guarded(|| check(&Case::from_json(case).ok_or_else(bad)?, &mut rec)))
 }
